@@ -28,11 +28,12 @@ Theorem C25_groups_exact : forall ls,
 Proof. exact groups_exact. Qed.
 Print Assumptions C25_groups_exact.
 
-(* values: surrounding white space removed, nothing else *)
-Theorem C25_value_trimmed_exact : forall l, exists a b, l = a ++ ref_trim l ++ b /\
-  forallb ref_ows a = true /\ forallb ref_ows b = true /\
-  match ref_trim l with c :: _ => ref_ows c = false | [] => True end /\
-  last_is ref_ows (ref_trim l) = false.
+(* values: surrounding trimmable bytes removed, nothing else; trimmable = ref_value_ws name: SP/HTAB for
+   Content-Length and Transfer-Encoding (RFC 9110 OWS), all of isspace() for other names *)
+Theorem C25_value_trimmed_exact : forall ws l, exists a b, l = a ++ ref_trim ws l ++ b /\
+  forallb ws a = true /\ forallb ws b = true /\
+  match ref_trim ws l with c :: _ => ws c = false | [] => True end /\
+  last_is ws (ref_trim ws l) = false.
 Proof. exact ref_trim_exact. Qed.
 Print Assumptions C25_value_trimmed_exact.
 
@@ -167,6 +168,17 @@ Example C25_ex_folded_framing :
   h_parse true false false [67;111;110;116;101;110;116;45;76;101;110;103;116;104;58;32;49;13;10;32;48;13;10;13;10] = None /\
   h_parse true false false [88;45;97;58;32;49;13;10;32;48;13;10;13;10] <> None.
 Proof. vm_compute. split; [reflexivity|discriminate]. Qed.
+(* only SP/HTAB are dropped around framing values: "Transfer-Encoding: chunked<VT>" keeps the VT (and is then an
+   unsupported coding), "X-a: b<VT>" loses it; "Content-Length: <FF>5" is not a usable length *)
+Example C25_ex_framing_trim :
+  option_map (fun r => (map he_value (hr_entries r), hr_teUnsupported r))
+    (h_parse true false false [84;114;97;110;115;102;101;114;45;69;110;99;111;100;105;110;103;58;32;99;104;117;110;107;101;100;11;13;10;13;10])
+    = Some ([[99;104;117;110;107;101;100;11]], true) /\
+  option_map (fun r => map he_value (hr_entries r))
+    (h_parse true false false [88;45;97;58;32;98;11;13;10;13;10]) = Some [[98]] /\
+  option_map (fun r => (map he_value (hr_entries r), hr_conflicting r))
+    (h_parse true false false [67;111;110;116;101;110;116;45;76;101;110;103;116;104;58;32;12;53;13;10;13;10]) = Some ([], true).
+Proof. vm_compute. repeat split. Qed.
 (* "A: b\r\n\r\r\n\r\n": CR-only line; rejected as request *)
 Example C25_ex_cr_only :
   let block := [65;58;32;98;13;10;13;13;10;13;10] in
